@@ -89,7 +89,7 @@ def check(run):
             seen.add(k)
             sims.append(dc.from_model(h, atoms, rng))
     behs = sims + dc.systematic(run.tier, rng)
-    files = dc.record(run, behs, "drift-world", procs=8)
+    files = dc.record(run, behs, "drift-world", procs=8 if run.tier == "quick" else 16)
     info = dc.scan(files)
     if len(info) != len(behs):
         raise vlib.InfraError("driver produced %d traces for %d behaviours" % (len(info), len(behs)))
@@ -100,11 +100,16 @@ def check(run):
         stats["hash_reconciles"] += t["hash"]
         stats["claims_launched"] += t["launched"]
         stats["traces_with_drifted_claim"] += 1 if t["drifted"] else 0
-    if stats["drift_reconciles_judged"] < 200 or stats["traces_with_drifted_claim"] < 20:
+        stats["claims_created"] += t["created"]
+        stats["creates_refused"] += t["create_failed"]      # e.g. minValues on a custom key: the scheduler opens nothing
+    if stats["drift_reconciles_judged"] < 200 or stats["traces_with_drifted_claim"] < 20 or stats["creates_refused"] * 4 > stats["claims_created"]:
         raise vlib.InfraError("behaviours too shallow: %s" % dict(stats))
     run.extra_cov["world"] = dict(stats)
     run.extra_cov["behaviours"] = {"tlc_simulated": len(sims), "systematic": len(behs) - len(sims)}
+    import time
+    t0 = time.time()
     run.validate("Drift_Trace", "Drift_Trace.cfg", hash_files + files, par=8, timeout=1800)
+    run.notes.append("trace validation %.1fs" % (time.time() - t0))
     run.samples = [{"tag": b["tag"], "scn": b["scn"], "steps": b["steps"][:12]} for b in (behs[0], behs[len(sims)], behs[-1])]
     run.assumptions += [
         "the documented non-drifting fields are .spec.disruption.*, .spec.limits, .spec.weight and .spec.template.spec.requirements; every other "
